@@ -58,6 +58,13 @@ for _a in range(6):
             defines=['-DVERIF_K0=%d' % _a, '-DVERIF_K1=%d' % _b, '-DVERIF_STORAGE=5'],
             bounds='2 operations (%s then %s) with symbolic parameters and values, buffer of 5 bytes, ft <= 256 for division-based kinds' % (_KN[_a], _KN[_b]),
             what='encode -> ec_enc_done -> decode: values, tell, tell_frac and rng agree; done cannot fail within budget'))
+# buffers so small that the range coder's bytes (front) and the raw bits (back) meet: ec_enc_done must flag the collision
+for _st in (2, 3):
+    for (_a, _b) in ((0, 3), (3, 3)):
+        GROUPS.append(dict(_INV, name='inv_collide_%s_%s_st%d' % (_KN[_a], _KN[_b], _st), unwind=10, timeout=1800, mem_gb=12, tier='quick',
+            defines=['-DVERIF_K0=%d' % _a, '-DVERIF_K1=%d' % _b, '-DVERIF_STORAGE=%d' % _st],
+            bounds='2 operations (%s then %s) with symbolic parameters and values, buffer of %d bytes (front and back of the buffer meet)' % (_KN[_a], _KN[_b], _st),
+            what='encode -> ec_enc_done -> decode in a buffer where range-coder bytes and raw bits collide: either an error is reported or everything decodes'))
 # ec_encode is used through its contract by ec_enc_uint but its own range facts are NOT discharged (tier off): it is reported as an assumed contract
 GROUPS.append(dict(_INV, name='inv_patch_bit_bit_freq', unwind=10, timeout=5400, mem_gb=20, tier='thorough',
     defines=['-DVERIF_NOPS=3', '-DVERIF_K0=0', '-DVERIF_K1=0', '-DVERIF_K2=5', '-DVERIF_STORAGE=5', '-DVERIF_PATCH=2'],
